@@ -328,12 +328,14 @@ PROPS["C15"] = dict(
          "scripted connection: generated request sequences (7 methods, targets with queries, 0..10 headers incl. "
          "repeated names, bodies 0..64 KiB with content-length or chunked) in one piece, one write per request "
          "(pipelined and lock-step), single cuts (stride) and triple cuts; arbitrary streams and datagrams; replies up "
-         "to 64 KiB; compared: backend received vs client sent, client received vs backend sent, events per request "
+         "to 64 KiB; ssh: logins through the proxy to a real ssh backend run by the harness (accepted and rejected "
+         "passwords, env/pty-req/exec/shell requests, channel data 0..64 KiB each way, client finishing before the backend); "
+         "compared: backend received vs client sent, client received vs backend sent, events per request "
          "naming the client, decoys untouched, connections per backend; requests/streams/dial targets also through the "
          "Lean models; non-trivial = the backend received something",
     trusted=COMMON_TB + ["verif hook server/verif_hooks.go (VerifNew, VerifHandle)",
-                         "modelled, not verified: net/http request re-serialisation and reply parsing (content compared by the "
-                         "fixtures), the ssh proxy (not exercised: no ssh backend fixture was built)",
+                         "modelled, not verified: net/http request re-serialisation and reply parsing, and the whole ssh proxy "
+                         "(golang.org/x/crypto/ssh on both legs) - their fidelity is decided by the fixtures, not by a Lean model",
                          "the harness's fixtures and their own use of net/http to parse what the proxy sent"],
     assumptions=["the backend answers every request (a backend that stalls is C09's subject)"],
 )
@@ -353,8 +355,8 @@ MANIFEST_TEXT = {
              "pipelining (corollary of the C04 theorem). Tied to the code by backend fixtures: requests and bytes received "
              "by the backend, replies received by the client, events, decoy listeners.",
         design_ref="DESIGN.md section 7, C15 and section 11",
-        note="Partial: the ssh proxy is not covered (no backend fixture); equality of request/reply content through "
-             "net/http's re-serialisation is decided by the fixtures on generated traffic, not proved.",
+        note="Partial: equality of request/reply content through net/http's re-serialisation, and the ssh proxy's relaying "
+             "of credentials, requests and channel data, are decided by the backend fixtures on generated traffic, not proved.",
         technique="Lean 4 proof (relay exactness, director target, monotone request framing) + differential correspondence + backend-fixture oracle",
     ),
     "C01": dict(
